@@ -933,8 +933,11 @@ void bn_rec_sac(int8_t *b, size_t *len, const bn_t *k, const bn_t u, size_t c,
 		l = RLC_MAX(l, bn_bits(u) + 1);
 		for (size_t i = 0; i < m; i++) {
 			bn_copy(t[i], k[i]);
-			/* The current basis for some curves might be one bit longer. */
+			/* The current basis for some curves might be one bit longer. Take
+			 * that length for every scalar, so that the length of the recoding
+			 * does not depend on the value being recoded. */
 			if (cof) {
+				l = RLC_MAX(l, RLC_CEIL(n, c * m) + 2);
 				l = RLC_MAX(l, bn_bits(t[i]) + 1);
 			}
 		}
